@@ -27,7 +27,7 @@ def title(t):
 def observe(lab, c):
     lab.configure([{"ab": "A", "ts": ["T1"], "scu": "N", "scp": "N"}], "normal",
                   require_calling=[title(r) for r in c["required"]], require_called=c["requireCalled"],
-                  identity=None if c["identity"] in ("none", "unbound") else c["identity"])
+                  identity=None if c["identity"] in ("none", "unbound") else c["identity"], inplace=c.get("how") == "inplace")
     lab.server.ae_title = title(c["own"])
     ident = None if c["identity"] == "none" else {"type": 1, "primary": b"user"}
     rq = lab.rq_pdu([{"id": 1, "ab": "A", "ts": ["T1"]}], calling=title(c["calling"]), called=title(c["called"]), identity=ident)
@@ -57,12 +57,13 @@ def run(ctx: Ctx) -> int:
         p = _P(r.out)
         p.i = m.start()
         v = p.value()[1]
-        cases.append({"calling": v["calling"], "called": v["called"], "own": v["own"], "requireCalled": v["requireCalled"], "identity": v["identity"],
+        cases.append({"calling": v["calling"], "called": v["called"], "own": v["own"], "requireCalled": v["requireCalled"], "identity": v["identity"], "how": v["how"],
                       "required": [dict(t) for t in sorted(v["required"], key=repr)]})
     if len(cases) < 1000:
         raise MachineryError(f"only {len(cases)} cases exported")
     if ctx.tier != "thorough":
-        cases = cases[::2] + [c for c in cases[1::2] if c["identity"] in ("false", "raise")][::3]
+        import random
+        cases = random.Random(ctx.seed + 13).sample(cases, 2000)
     nthreads = 8
     outs = [[] for _ in range(nthreads)]
 
@@ -87,7 +88,7 @@ def run(ctx: Ctx) -> int:
         v = verdicts[o["id"]][0]
         c = o["c"]
         ctx.traces += 1
-        ctx.case((title(c["calling"]), tuple(title(x) for x in c["required"]), title(c["called"]), title(c["own"]), c["requireCalled"], c["identity"]),
+        ctx.case((title(c["calling"]), tuple(title(x) for x in c["required"]), title(c["called"]), title(c["own"]), c["requireCalled"], c["identity"], c.get("how")),
                  nontrivial=bool(c["required"]) or c["requireCalled"] or c["identity"] != "none")
         if v != "ok":
             ctx.violation({"clause": v, "identity": c["identity"], "padded": bool(c["calling"]["lead"] or c["calling"]["trail"] or c["called"]["lead"] or c["called"]["trail"])},
